@@ -161,6 +161,7 @@ func providerEffectScan(c *Ctx) *types.Named {
 	c.count("C17/functions-in-cone", len(cone))
 	c.floor("C17/functions-in-cone", 60)
 
+	guardedFields, lockRoots := guardedState(c.P, spT)
 	nStores, nProvider := 0, 0
 	for _, fn := range cone {
 		if !c.P.inLibrary(fn) {
@@ -180,6 +181,10 @@ func providerEffectScan(c *Ctx) *types.Named {
 					case isProviderRooted(kind):
 						nProvider++
 						ok := c.P.withinOnly(fn, allowNames("(*SAMLServiceProvider).SigningContext")) && (path == ".signingContext" || strings.Contains(kind, ".signingContext)"))
+						if !ok && strings.HasPrefix(kind, "param:") && strings.Count(path, ".") == 1 && guardedFields[strings.TrimPrefix(path, ".")] && lockRoots[topFn(fn)] && c.P.withinOnly(fn, allowNames("(*SAMLServiceProvider).SigningContext")) {
+							// bookkeeping next to the cached context, written where the context is created: R2 demands the write lock
+							ok = true
+						}
 						if ok {
 							c.ok("C17-R1", fname, "store through the provider: "+kind+path, pos, "the lazily created signing context (lock discipline checked by R2)")
 						} else {
@@ -338,6 +343,7 @@ func restOfC17(c *Ctx, spT *types.Named) {
 	c.count("C17-R1/package-variables", nG)
 
 	// who may touch the lazily created context / its mutex
+	guardedF, lockR := guardedState(c.P, spT)
 	nAcc := 0
 	for _, fn := range c.P.LibFns {
 		for _, b := range fn.Blocks {
@@ -351,16 +357,17 @@ func restOfC17(c *Ctx, spT *types.Named) {
 					continue
 				}
 				name := st.Underlying().(*types.Struct).Field(fa.Field).Name()
-				if name == "signingContext" || name == "signingContextMu" {
+				if guardedF[name] || name == "signingContextMu" {
 					nAcc++
-					c.check(c.P.withinOnly(fn, allowNames("(*SAMLServiceProvider).SigningContext")), "C17-R2/who-may-access", shortFn(fn), "access to sp."+name, c.P.InstrPos(fa), "inside SigningContext", "sp."+name+" is accessed outside SigningContext, bypassing its lock discipline")
+					// every function that touches library-written provider state is a root of the lockset rule below
+					c.check(lockR[topFn(fn)], "C17-R2/who-may-access", shortFn(fn), "access to sp."+name, c.P.InstrPos(fa), "inside a function whose every path is checked by the lockset rule", "sp."+name+" is accessed outside the functions analysed for lock discipline")
 				}
 			}
 		}
 	}
 	c.count("C17-R2/guarded-field-accesses", nAcc)
 	c.floor("C17-R2/guarded-field-accesses", 6)
-	locksetRule(c, "C17-R2")
+	locksetRule(c, "C17-R2", guardedF, lockR)
 
 	// R3: validators return fresh objects
 	for _, spec := range []inboundSpec{ssoSpec, loRespSpec, loReqSpec} {
@@ -409,11 +416,29 @@ func describeBase(kind, path string) string {
 	return s
 }
 
-func locksetRule(c *Ctx, rule string) {
-	res := c.kernel("(*SAMLServiceProvider).SigningContext", "*")
-	if res == nil {
-		return
+func locksetRule(c *Ctx, rule string, guarded map[string]bool, roots map[*ssa.Function]bool) {
+	n := 0
+	var fns []*ssa.Function
+	for f := range roots {
+		fns = append(fns, f)
 	}
+	sort.Slice(fns, func(i, j int) bool { return fns[i].String() < fns[j].String() })
+	for _, root := range fns {
+		inl := []string{"*"}
+		if shortFn(root) != "(*SAMLServiceProvider).SigningContext" {
+			inl = append(inl, "-(*SAMLServiceProvider).SigningContext")
+		}
+		res := c.kernelFn(root, inl...)
+		if res == nil {
+			continue
+		}
+		n += locksetPaths(c, rule, res, guarded)
+	}
+	c.count(rule+"/paths", n)
+	c.floor(rule+"/paths", 5)
+}
+
+func locksetPaths(c *Ctx, rule string, res *Result, guarded map[string]bool) int {
 	fname := shortFn(res.Root)
 	n := 0
 	for _, t := range res.Terms {
@@ -471,14 +496,18 @@ func locksetRule(c *Ctx, rule string) {
 				}
 			case EvDeref:
 				if u, ok := e.Instr.(*ssa.UnOp); ok && u.Op == token.MUL {
-					if fa, ok := e.X.(*FieldAddrV); ok && fa.Name == "signingContext" && ap(fa.X) == "SP" {
-						c.check(held != "", rule, fname, "load of sp.signingContext under the lock", pos, held+" held", "sp.signingContext is read without holding signingContextMu: data race with the lazy initialisation")
+					if fa, ok := e.X.(*FieldAddrV); ok && guarded[fa.Name] && ap(fa.X) == "SP" {
+						c.check(held != "", rule, fname, "load of sp."+fa.Name+" under the lock", pos, held+" held", "sp."+fa.Name+" is read without holding signingContextMu: data race with the code that writes it")
 					}
 				}
 			case EvStore:
 				if fa, ok := e.Addr.(*FieldAddrV); ok && fa.Name == "signingContext" && ap(fa.X) == "SP" {
 					c.check(held == "W", rule, fname, "store to sp.signingContext under the write lock", pos, "W held", "sp.signingContext is written without holding signingContextMu in write mode")
 					published = e.Val
+					continue
+				}
+				if fa, ok := e.Addr.(*FieldAddrV); ok && guarded[fa.Name] && ap(fa.X) == "SP" {
+					c.check(held == "W", rule, fname, "store to sp."+fa.Name+" under the write lock", pos, "W held", "sp."+fa.Name+" is written without holding signingContextMu in write mode")
 					continue
 				}
 				if published != nil && rootOf(e.Addr).Key() == published.Key() {
@@ -488,8 +517,7 @@ func locksetRule(c *Ctx, rule string) {
 		}
 		c.check(held == "" && pathOK, rule, fname, "every acquire released on return ["+lockLabel(t)+"]", c.P.InstrPos(t.Instr), "lockset empty at return", "a path returns with signingContextMu still held ("+held+")")
 	}
-	c.count(rule+"/paths", n)
-	c.floor(rule+"/paths", 5)
+	return n
 }
 
 func lockLabel(t *Terminal) string {
@@ -829,4 +857,52 @@ func derivedDeep(derived func(Val, int) bool, v Val, d int) bool {
 		}
 	}
 	return false
+}
+
+// guardedState: the provider fields the library itself writes (outside the configuration setters) — the lazily created
+// signing context and whatever further cache / bookkeeping fields a refactoring adds — plus the mutex; and the
+// top-level functions that touch any of them. Those functions are the roots of the lockset rule (R2): every load of
+// such a field holds signingContextMu, every store holds it in write mode.
+func guardedState(p *Prog, spT *types.Named) (fields map[string]bool, roots map[*ssa.Function]bool) {
+	fields = map[string]bool{"signingContext": true}
+	roots = map[*ssa.Function]bool{}
+	config := map[string]bool{"SetSPKeyStore": true, "SetSPSigningKeyStore": true}
+	spField := func(fa *ssa.FieldAddr) (string, bool) {
+		st, ok := derefStruct(fa.X.Type())
+		if !ok || !types.Identical(st, spT) {
+			return "", false
+		}
+		return st.Underlying().(*types.Struct).Field(fa.Field).Name(), true
+	}
+	for _, fn := range p.LibFns {
+		if config[topFn(fn).Name()] {
+			continue
+		}
+		for _, b := range fn.Blocks {
+			for _, in := range b.Instrs {
+				if st, ok := in.(*ssa.Store); ok {
+					if fa, ok := st.Addr.(*ssa.FieldAddr); ok {
+						if name, ok := spField(fa); ok && name != "signingContextMu" {
+							fields[name] = true
+						}
+					}
+				}
+			}
+		}
+	}
+	for _, fn := range p.LibFns {
+		if config[topFn(fn).Name()] {
+			continue
+		}
+		for _, b := range fn.Blocks {
+			for _, in := range b.Instrs {
+				if fa, ok := in.(*ssa.FieldAddr); ok {
+					if name, ok := spField(fa); ok && (fields[name] || name == "signingContextMu") {
+						roots[topFn(fn)] = true
+					}
+				}
+			}
+		}
+	}
+	return fields, roots
 }
